@@ -1,4 +1,5 @@
 import ScrapliProps.C05Lemmas
+import ScrapliModel.Bytes
 import ScrapliProps.C05.eosSFull_session0_own
 import ScrapliProps.C05.eosSFull_session1_own
 import ScrapliProps.C05.eosS_configuration_det
